@@ -121,7 +121,7 @@ func urlsFor(r *core.Rand, t *rt.Table, n int) []string {
 func c17(ctx *core.Ctx) {
 	quietLogs()
 	ctx.Rule("tables on the fragment both matching engines support (nested literal roots, literal and {v} segments, Consumes/Produces, no conditions), both routers. For each URL u: S(u) = methods in {GET,POST,PUT,DELETE,PATCH,HEAD,LOCK,UNLOCK,FIND,PROPFIND,GE} whose probe on a filter-less twin is not 404/405. Oracle: every 405's Allow set == S(u) (also for OPTIONS and an unknown method); with OPTIONSFilter installed OPTIONS u gives Allow == Access-Control-Allow-Methods == S(u), runs no route function, and every other probe equals the twin's answer. Non-trivial = a URL with non-empty S(u); distinct by (router, |S(u)|, number of matching roots, trailing slash).")
-	ctx.Assume("OPTIONS itself is outside the compared universe (removed from both sides): the filter answers it by construction", "now and then a WebService whose five routes are registered from ONE reused RouteBuilder (method and path changed between the calls); every 3rd table has explicit OPTIONS routes; every 3rd table has routes added/removed on registered WebServices between three probe passes")
+	ctx.Assume("OPTIONS itself is outside the compared universe (removed from both sides): the filter answers it by construction", "now and then a WebService whose five routes are registered from ONE reused RouteBuilder (method and path changed between the calls; every other route function writes nothing at all); every 3rd table has explicit OPTIONS routes; every 3rd table has routes added/removed on registered WebServices between three probe passes")
 	tables := ctx.N(1800, 80000)
 	perTable := ctx.N(25, 50)
 	if !ctx.Quick() {
@@ -307,7 +307,18 @@ func c17BuilderReuse(ctx *core.Ctx, ti int, router string, universe []string, rr
 		b := ws.GET("/items")
 		for i := range t.Svcs[0].Routes {
 			rs := &t.Svcs[0].Routes[i]
-			ws.Route(b.Method(rs.Method).Path(rs.Render()).To(rt.RouteFunc(rs.ID)).Operation(fmt.Sprint("r", rs.ID)).Metadata("rid", rs.ID))
+			fn := rt.RouteFunc(rs.ID)
+			if i%2 == 0 {
+				// a route function that writes neither status nor body (the implicit empty 200): whatever a filter adds to the
+				// response after the chain has returned still goes out with it
+				id := rs.ID
+				fn = func(req *restful.Request, resp *restful.Response) {
+					if o := rt.ObsOf(req.Request); o != nil {
+						o.Invokes = append(o.Invokes, rt.Invoke{RID: id})
+					}
+				}
+			}
+			ws.Route(b.Method(rs.Method).Path(rs.Render()).To(fn).Operation(fmt.Sprint("r", rs.ID)).Metadata("rid", rs.ID))
 		}
 		c.Add(ws)
 		return c
